@@ -100,6 +100,17 @@ def apply_op(ds, op, aux=None, args=None):
             return part.ptm5(**kw)
         if m == "bbox":
             return part.bbox(args.get("bboxes", [dict(b) for b in op["bboxes"]]))
+    if m == "plot":
+        import matplotlib
+
+        matplotlib.use("Agg")
+        import matplotlib.pyplot as plt
+
+        try:
+            spec.plot(**kw)
+        finally:
+            plt.close("all")
+        return None
     if m == "sel":
         lons = args.get("lons", list(op["lons"]))
         lats = args.get("lats", list(op["lats"]))
